@@ -25,6 +25,9 @@ def gen_case(rng, idx):
                 text = f"<{idx}.{tag[0]}>" + text
             writes.append((rng.choice(["out", "err"]), rng.choice(["py", "py", "fd", "child"]), text, rng.random() < 0.5))
         tasks.append({"writes": writes, "fail": False})
+    if n > 1 and rng.random() < 0.3:
+        # an earlier task returns with sys.stdout/sys.stderr set back to the interpreter's original objects
+        tasks[rng.randrange(n - 1)]["restore"] = True
     if rng.random() < 0.5:
         # the tasks form a chain (to fix their order), so only the last one may fail
         tasks[-1]["fail"] = rng.random() < 0.4
@@ -50,6 +53,49 @@ def exec_order(case, r):
         return None
     seen = [int(rep["task"].split("_")[-1]) for rep in r["result"]["reports"]]
     return seen + [i for i in range(len(case["tasks"])) if i not in seen]
+
+
+def short(x):
+    return x if len(x) < 400 else x[:60] + f"...[{len(x)} characters]"
+
+
+def first_diff(a, b):
+    for k, (x, y) in enumerate(zip(a, b)):
+        if x != y:
+            return {"index": k, "expected": a[max(0, k - 3):k + 4], "got": b[max(0, k - 3):k + 4]}
+    return {"index": min(len(a), len(b)), "lengths": [len(a), len(b)]}
+
+
+def oracle(out, c, r, got, shown=None):
+    """direct oracle on tagged payloads"""
+    cs = shown or c
+    for i, t in enumerate(c["tasks"]):
+        for s, l, text, _ in t["writes"]:
+            if not text:
+                continue
+            tagged = text.split(">")[0] + ">"
+            stream = "stdout" if s == "out" else "stderr"
+            captured = c["method"] == "fd" or (c["method"] in ("sys", "tee-sys") and l == "py")
+            own = got.get((f"task_{i}", "call", stream), "")
+            others = [v for k, v in got.items() if k != (f"task_{i}", "call", stream)]
+            term = r["stdout"] if s == "out" else r["stderr"]
+            if captured:
+                expect = "".join(x for s2, l2, x, _ in t["writes"]
+                                 if s2 == s and (c["method"] == "fd" or (c["method"] in ("sys", "tee-sys") and l2 == "py")))
+                if own != expect and text in own:
+                    out.violation("a task's report section does not hold its output in order and unmodified",
+                                  {"case": cs, "task": i, "stream": stream, "section": short(own), "expected": short(expect), "first_difference": first_diff(expect, own)})
+            if captured and text not in own:
+                out.violation("output of a task is missing from (or altered in) its own report section", {"case": cs, "task": i, "payload": short(text), "section": short(own), "first_difference": first_diff(text, own[own.find(tagged):] if tagged in own else own)})
+            if any(tagged in v for v in others):
+                out.violation("output of a task appears in another section", {"case": cs, "task": i, "payload": short(text)})
+            if not captured and tagged in own:
+                out.violation("uncaptured output appears in a report section", {"case": cs, "task": i, "payload": short(text)})
+            passes = (not captured) or c["method"] == "tee-sys"
+            if passes and tagged not in term:
+                out.violation("output that is not captured (or is tee'd) did not reach the real stream", {"case": cs, "task": i, "payload": short(text)})
+            if captured and c["method"] != "tee-sys" and tagged in term and not t["fail"]:
+                out.violation("captured output of a succeeding task leaked to the real stream", {"case": cs, "task": i, "payload": short(text)})
 
 
 def run(out, tier, seed, proof):
@@ -79,33 +125,29 @@ def run(out, tier, seed, proof):
                 got[(rep["task"], when, stream)] = got.get((rep["task"], when, stream), "") + text
         if got != want:
             out.disagreement("report sections differ from the model", {"case": c, "impl": {str(k): v for k, v in got.items()}, "model": {str(k): v for k, v in want.items()}})
-        # ---- direct oracle on tagged payloads
-        for i, t in enumerate(c["tasks"]):
-            for s, l, text, _ in t["writes"]:
-                if not text:
-                    continue
-                tagged = text.split(">")[0] + ">"
-                stream = "stdout" if s == "out" else "stderr"
-                captured = c["method"] == "fd" or (c["method"] in ("sys", "tee-sys") and l == "py")
-                own = got.get((f"task_{i}", "call", stream), "")
-                others = [v for k, v in got.items() if k != (f"task_{i}", "call", stream)]
-                term = r["stdout"] if s == "out" else r["stderr"]
-                if captured:
-                    expect = "".join(x for s2, l2, x, _ in t["writes"]
-                                     if s2 == s and (c["method"] == "fd" or (c["method"] in ("sys", "tee-sys") and l2 == "py")))
-                    if own != expect and text in own:
-                        out.violation("a task's report section does not hold its output in order and unmodified",
-                                      {"case": c, "task": i, "stream": stream, "section": own, "expected": expect})
-                if captured and text not in own:
-                    out.violation("output of a task is missing from (or altered in) its own report section", {"case": c, "task": i, "payload": text, "section": own})
-                if any(tagged in v for v in others):
-                    out.violation("output of a task appears in another section", {"case": c, "task": i, "payload": text})
-                if not captured and tagged in own:
-                    out.violation("uncaptured output appears in a report section", {"case": c, "task": i, "payload": text})
-                passes = (not captured) or c["method"] == "tee-sys"
-                if passes and tagged not in term:
-                    out.violation("output that is not captured (or is tee'd) did not reach the real stream", {"case": c, "task": i, "payload": text})
-                if captured and c["method"] != "tee-sys" and tagged in term and not t["fail"]:
-                    out.violation("captured output of a succeeding task leaked to the real stream", {"case": c, "task": i, "payload": text})
+        oracle(out, c, r, got)
+    # ---- large outputs full of multi-byte characters (oracle only: too large for a Coq literal): nothing may be
+    # altered where a read buffer ends
+    big = []
+    for j in range(3 if tier == "quick" else 12):
+        unit = rng.choice(["\u00e9\u4e2d", "\u4e2d", "\u00fc\u2713x", "\U0001f600\u00e9"])
+        tasks = []
+        for i in range(2):
+            text = f"<B{j}.{i}>" + unit * (rng.randint(70000, 140000) // len(unit.encode())) * 2 + "\n"
+            tasks.append({"writes": [(rng.choice(["out", "err"]), rng.choice(["py", "fd"]), text, False)], "fail": False})
+        big.append({"method": rng.choice(["fd", "fd", "sys"]), "tasks": tasks, "chain": True})
+    bres = run_impl_worker("impl_capture.py", big, timeout=3000)
+    for c, r in zip(big, bres):
+        out.case({"method": c["method"], "big": [(w[0][0], w[0][1], len(w[0][2])) for w in (t["writes"] for t in c["tasks"])]}, nontrivial=True)
+        out.count("big_outputs")
+        if r["result"] is None:
+            out.disagreement("build did not return", {"case": "big", "stderr": r["stderr"][-800:]})
+            continue
+        got = {}
+        for rep in r["result"]["reports"]:
+            for when, stream, text in rep["sections"]:
+                got[(rep["task"], when, stream)] = got.get((rep["task"], when, stream), "") + text
+        small = dict(c, tasks=[dict(t, writes=[(s_, l_, x[:12] + "...", f_) for s_, l_, x, f_ in t["writes"]]) for t in c["tasks"]])
+        oracle(out, c, r, got, shown=small)
     out.coverage["programs"] = len(flat)
     out.sample({"case": flat[0], "sections": res[0]["result"]})
